@@ -336,6 +336,40 @@ func checkC11(c *vlib.Ctx) (string, string) {
 		}
 		c.SampleAt(i+1, func() any { return k })
 	})
+	// dictionary pass: whether a request is a preflight, and what reaches the handler, does not depend on any other
+	// request header: 27 request classes x every entry of the request-header dictionary, on every configuration
+	// (fresh middleware) in both debug modes and on both kinds of passthrough middleware
+	var dcds []cd
+	for _, x := range cds {
+		if x.route == 0 {
+			dcds = append(dcds, x)
+		}
+	}
+	var dreqs []vlib.Req
+	for _, m := range []string{"OPTIONS", "GET", "options"} {
+		for _, o := range [][]string{nil, {"https://a.example"}, {"https://evil.example"}} {
+			for _, a := range [][]string{nil, {"PUT"}, {""}} {
+				hdr := map[string][]string{}
+				if o != nil {
+					hdr["Origin"] = o
+				}
+				if a != nil {
+					hdr["Access-Control-Request-Method"] = a
+				}
+				for _, e := range requestHeaderDictionary {
+					dreqs = append(dreqs, withDictionaryHeader(vlib.Req{Method: m, Hdr: hdr}, e))
+				}
+			}
+		}
+	}
+	dp := vlib.Product{Sizes: []int{len(dcds), len(dreqs)}}
+	c.ParRange(dp.Count(), 256, "C11 dictionary headers", func(i int64) {
+		var tmp [2]int
+		ix := dp.At(i, tmp[:0])
+		x := dcds[ix[0]]
+		ck.Try(c11Case{Passthrough: x.pass, Cfg: x.lit, Debug: x.dbg, Req: dreqs[ix[1]], Handler: handlers[1]})
+	})
+	c.Set("dictionary_cells", dp.Count())
 	c.States.Add(c.Evaluations.Load())
 	c.Transitions.Add(c.Evaluations.Load())
 	c.Set("product_cells_before_quick_tier_thinning", prod.Count())
